@@ -57,6 +57,7 @@ int state_status(struct snapraid_state* state)
 	block_off_t count;
 	unsigned l;
 	unsigned dayoldest, daymedian, daynewest;
+	char esc_buffer[ESC_MAX];
 	unsigned bar_scrubbed[GRAPH_COLUMN];
 	unsigned bar_new[GRAPH_COLUMN];
 	unsigned barpos;
@@ -144,9 +145,9 @@ int state_status(struct snapraid_state* state)
 				++file_zerosubsecond;
 				++disk_file_zerosubsecond;
 				if (disk_file_zerosubsecond < 50)
-					log_tag("zerosubsecond:%s:%s: \n", disk->name, file->sub);
+					log_tag("zerosubsecond:%s:%s: \n", disk->name, esc_tag(file->sub, esc_buffer));
 				if (disk_file_zerosubsecond == 50)
-					log_tag("zerosubsecond:%s:%s: (more follow)\n", disk->name, file->sub);
+					log_tag("zerosubsecond:%s:%s: (more follow)\n", disk->name, esc_tag(file->sub, esc_buffer));
 			}
 
 			/* check fragmentation */
